@@ -95,18 +95,32 @@ var allSuites = []uint16{0xcca8, 0xcca9, 0xc02f, 0xc02b, 0xc011, 0xc007, 0xc013,
 	0x0005, 0x002f, 0x0035, 0xc012, 0x000a, 0xe019}
 
 // every (suite, version) pair for which bfe_tls.Server completes a handshake with its default
-// (grade C) policy; established by trial (`-probe`), checked again by the Pre cases.
+// (grade C) policy; established by trial, checked again by the Pre cases on every run.
 var combos []combo
 
 func init() {
 	for _, s := range allSuites {
-		for _, v := range []uint16{0x0300, 0x0301, 0x0302, 0x0303} {
+		// SSL 3.0 is left out: a bfe_tls.Client pinned to SSL 3.0 does not complete a handshake with
+		// bfe_tls.Server in this setup (it rejects the server's first record), and Go's crypto/tls has no SSL 3.0.
+		for _, v := range []uint16{0x0301, 0x0302, 0x0303} {
 			if isAEAD(s) && v != 0x0303 {
 				continue
 			}
 			combos = append(combos, combo{s, v})
 		}
 	}
+}
+
+type noProtos struct{}
+
+func (noProtos) Get(c *bfe_tls.Conn) []string { return nil }
+
+// srvRule is the per-connection rule of the server: bfe's default grade, ChaCha20 suites enabled
+// (they are only negotiable when the rule enables them).
+type srvRule struct{}
+
+func (srvRule) Get(c *bfe_tls.Conn) *bfe_tls.Rule {
+	return &bfe_tls.Rule{Grade: bfe_tls.GradeC, Chacha20: true, NextProtos: noProtos{}}
 }
 
 // ---------------------------------------------------------------- connection plumbing
@@ -165,7 +179,8 @@ func handshake(suite, vers uint16) (*pair, error) {
 		cert = ecCert
 	}
 	sc := &bfe_tls.Config{Certificates: []bfe_tls.Certificate{cert}, MinVersion: 0x0300, MaxVersion: 0x0303,
-		CipherSuites: allSuites, SessionTicketsDisabled: true, SessionCacheDisabled: true}
+		CipherSuites: allSuites, SessionTicketsDisabled: true, SessionCacheDisabled: true,
+		ServerRule: srvRule{}}
 	sw := &swConn{Conn: s}
 	cli := bfe_tls.Client(c, cc)
 	srv := bfe_tls.Server(sw, sc)
